@@ -13,6 +13,11 @@ first `update()` starts, so a configuration saved while that first update is sti
 update — the running instance ends up with the configuration that was saved last, as a fresh start would. -/
 theorem watch_before_first_update : Facts.skel_run = Spec.Skeleton.run := by rfl
 
+/-- Obligation on the regenerated statement skeleton of `main.update`, which `Reconfig.update` and the harness's
+`applyLikeMainUpdate` transcribe: read the saved configuration; compress profiles, caches, upstreams (with the status
+callback), locations, servers in this order; start what does not listen yet. -/
+theorem update_transcribed : Facts.skel_update = Spec.Skeleton.main_update := by rfl
+
 /-- Obligation on the regenerated statement skeletons of the server registry's life cycle (server/server.go):
 `servers.Reset` (close what is gone, update what stays, create what is new), `server.Update` (all settings replaced
 together under the write lock, the location list by a new slice), `server.Close` (graceful close, THEN the listener
